@@ -482,7 +482,7 @@ impl<'a> Interp<'a> {
                     self.st.excluded_band += 1;
                     return self.skip(kk);
                 } else {
-                    data = vec![op.b as u8; n];
+                    data = vec![if op.b % 4 == 0 { 0 } else { op.b as u8 }; n];
                 }
             }
             k::MPutU8 => data = vec![op.b as u8],
@@ -535,7 +535,7 @@ impl<'a> Interp<'a> {
             k::MPutU8 => call(|| b.put_u8(dref[0])),
             k::MPutBytes => {
                 let n = huge.unwrap_or(dref.len());
-                let v = op.b as u8;
+                let v = if op.b % 4 == 0 { 0 } else { op.b as u8 };
                 call(|| b.put_bytes(v, n))
             }
             k::MWriteStr => call(|| {
